@@ -79,8 +79,11 @@ class Writer:
     def line(self, depth, s):
         self.out.append(('  ' * depth if self.indent else '') + s)
         if self.style.get('comments') and len(self.out) > 3 and self.srng.random() < 0.15:
-            self.out.append('<!-- <Lexicon id="fake" version="0"> %s & -->'
-                            % self.srng.choice(['x', '>', 'é']))
+            self.out.append(self.srng.choice([
+                '<!-- <Lexicon id="fake" version="0"> %s & -->' % self.srng.choice(['x', '>', 'é']),
+                '<!-- markup quoted in a comment: <?php echo -->',
+                '<!-- ... and its end: ?> <LexiconExtension id="fake2" version="0"> -->',
+                '<?render mode="draft"?>']))
 
     def etext(self, v: str) -> str:
         if self.style.get('cdata') and ']]>' not in v and self.srng.random() < 0.4:
@@ -311,6 +314,11 @@ def ili_tsv(ili_file) -> bytes:
                 if len(vals) > 2 else [vals[0], 'i77'] + vals[1:]
         lines.append('\t'.join(vals))
     nl = '\r\n' if ili_file.get('crlf') else '\n'
+    if ili_file.get('mixed_eol'):
+        # a table with rows appended by another tool: each line has its own terminator
+        other = '\n' if nl == '\r\n' else '\r\n'
+        return ''.join(ln + (other if i % 3 == 1 else nl)
+                       for i, ln in enumerate(lines)).encode('utf-8')
     return (nl.join(lines) + nl).encode('utf-8')
 
 
